@@ -43,6 +43,11 @@ impl short_weierstrass::SWCurveConfig for Config {
     }
 
     fn mul_projective(p: &G1Projective, scalar: &[u64]) -> G1Projective {
+        // `from_sign_and_limbs` accepts at most as many limbs as the scalar field has;
+        // longer slices (e.g. with leading zero limbs) take the generic path.
+        if scalar.len() > Self::ScalarField::MODULUS.0.len() {
+            return ark_ec::scalar_mul::sw_double_and_add_projective(p, scalar);
+        }
         let s = Self::ScalarField::from_sign_and_limbs(true, scalar);
         GLVConfig::glv_mul_projective(*p, s)
     }
